@@ -161,6 +161,7 @@ type loopInfo struct {
 	roots     map[string][]ssa.Instruction
 	bases     map[string][]loopBase
 	loadBases map[string][]loopBase
+	freshOnly map[string][]*ssa.Alloc
 	wild      map[string]bool
 	ord       int
 }
@@ -694,7 +695,7 @@ func (vc *VC) findLoops() {
 		for _, p := range b.Preds {
 			if b.Dominates(p) {
 				if _, ok := vc.loops[b]; !ok {
-					vc.loops[b] = &loopInfo{header: b, body: map[*ssa.BasicBlock]bool{b: true}, mods: map[string]bool{}, roots: map[string][]ssa.Instruction{}, bases: map[string][]loopBase{}, loadBases: map[string][]loopBase{}, wild: map[string]bool{}}
+					vc.loops[b] = &loopInfo{header: b, body: map[*ssa.BasicBlock]bool{b: true}, mods: map[string]bool{}, roots: map[string][]ssa.Instruction{}, bases: map[string][]loopBase{}, loadBases: map[string][]loopBase{}, freshOnly: map[string][]*ssa.Alloc{}, wild: map[string]bool{}}
 					headers = append(headers, b)
 				}
 				// natural loop: nodes reaching p without passing b
@@ -726,8 +727,14 @@ func (vc *VC) findLoops() {
 		for b := range li.body {
 			for _, ins := range b.Instrs {
 				root := storeRoot(ins)
+				dec := decoderTarget(ins)
 				for _, h := range vc.P.instrMods(ins, func(bb *ssa.BasicBlock) bool { return li.body[bb] }) {
 					li.mods[h] = true
+					if dec != nil && h != "$next" {
+						// writes only the local target and objects allocated by the call
+						li.freshOnly[h] = append(li.freshOnly[h], dec)
+						continue
+					}
 					if root != nil {
 						li.roots[h] = append(li.roots[h], root)
 					} else if base, isSlice := storeBase(ins); base != nil && definedOutside(base, li.body) {
@@ -1153,9 +1160,19 @@ func (vc *VC) loopHeader(b *ssa.BasicBlock, li *loopInfo, entryPreds []*ssa.Basi
 		}
 		vc.havocH(vc.st, h)
 		// writes only through known local allocations: everything else is unchanged
-		if !li.wild[h] && len(li.roots[h])+len(li.bases[h])+len(li.loadBases[h]) > 0 && before != "" && strings.HasPrefix(vc.pre.heapSort[h], "(Array Int ") {
+		if !li.wild[h] && len(li.roots[h])+len(li.bases[h])+len(li.loadBases[h])+len(li.freshOnly[h]) > 0 && before != "" && strings.HasPrefix(vc.pre.heapSort[h], "(Array Int ") {
 			var ne []string
 			okAll := true
+			if len(li.freshOnly[h]) > 0 {
+				ne = append(ne, fmt.Sprintf("(< r %s)", vc.getH(loopEntry, "$next", "Int")))
+				for _, a := range li.freshOnly[h] {
+					if t, have := vc.vals[a]; have {
+						ne = append(ne, fmt.Sprintf("(not (= r %s))", t))
+					} else if !li.body[a.Block()] {
+						okAll = false
+					}
+				}
+			}
 			for _, lb := range li.loadBases[h] {
 				// the variable read in the loop must not be written by the loop; its value is the one at loop entry
 				u := lb.v.(*ssa.UnOp)
